@@ -136,3 +136,64 @@ def c11_consult(R):
                 construct=f"{name}: cached read under _eval_exhausted with allow_unconstrained={ast.unparse(au) if au is not None else 'default'}",
             )
     R.need(n >= 2, f"only {n} cache reads under _eval_exhausted found in min/max")
+
+
+def _single_ast_fact(t, p):
+    """`len(p) == 1`, `len(p) < 2`, `len(p) <= 1` (either way round)"""
+    if not (isinstance(t, ast.Compare) and len(t.ops) == 1):
+        return False
+    a, op, b = t.left, t.ops[0], t.comparators[0]
+    for x, y, o in ((a, b, op), (b, a, {ast.Lt: ast.Gt, ast.Gt: ast.Lt, ast.LtE: ast.GtE, ast.GtE: ast.LtE}.get(type(op), type(op))())):
+        if ast.unparse(x) == f"len({p})" and isinstance(y, ast.Constant):
+            if isinstance(o, ast.Eq) and y.value == 1:
+                return True
+            if isinstance(o, ast.Lt) and y.value == 2:
+                return True
+            if isinstance(o, ast.LtE) and y.value == 1:
+                return True
+    return False
+
+
+@rule(
+    "C11.batchmark",
+    props=("C11",),
+    floor=1,
+    family="GRD",
+    desc="ModelCacheMixin.batch_eval answers from the cache on the strength of eval's per-expression exhaustion marks only "
+    "for a batch of one expression: every value of a and every value of b being cached does not make every pair cached",
+)
+def c11_batchmark(R):
+    tree = R.tree
+    m = tree.mod(MC)
+    fn = util.resolve_locals(tree.func_inlined(MC, "ModelCacheMixin.batch_eval", exclude=("_get_batch_solutions", "_get_models")))
+    ps = [a.arg for a in fn.args.args]
+    R.need(len(ps) >= 2, "batch_eval no longer takes (self, asts, ..)")
+    p = ps[1]
+    n = 0
+    for r in walk_no_nested(fn):
+        if not (isinstance(r, ast.Return) and r.value is not None):
+            continue
+        if any(isinstance(c, ast.Call) and util.is_super_call(c) for c in ast.walk(r.value)):
+            continue
+        pos = [t for t, pol in guards.guards_of(r) if pol]
+        for t in pos:
+            if "_eval_exhausted" not in ast.unparse(t):
+                continue
+            disjuncts = t.values if isinstance(t, ast.BoolOp) and isinstance(t.op, ast.Or) else [t]
+            for d in disjuncts:
+                if "_eval_exhausted" not in ast.unparse(d):
+                    continue
+                n += 1
+                conj = (d.values if isinstance(d, ast.BoolOp) and isinstance(d.op, ast.And) else [d]) + [o for o in pos if o is not t]
+                R.check(
+                    any(_single_ast_fact(c, p) for c in conj),
+                    m,
+                    r,
+                    "batch_eval: exhaustion marks answer only a batch of one",
+                    f"ModelCacheMixin.batch_eval returns the cached rows under `{ast.unparse(d)[:110]}` - eval's marks are per "
+                    f"expression, and the condition is not restricted to len({p}) == 1: after eval(a, 9) and eval(b, 9) exhausted "
+                    f"a and b separately, batch_eval([a, b], 9) returns only the pairs that happen to be cached",
+                    construct="batch_eval: early return on _eval_exhausted",
+                )
+    if n == 0:
+        R.ok(m, fn, "batch_eval does not answer from the exhaustion marks")
